@@ -90,6 +90,25 @@ void file_case(const LBmp& L, Stats& st) {
 	if ((absh(L.height) >= 2 && pt > rb) || L.usedColors) st.nt(fnv1a(v.data(), v.size()));
 }
 
+// arbitrary header + pixel block: an ordinary error, or an accepted bitmap that obeys the accepted-bitmap laws
+void candidate_case(const LBmp& L, Stats& st, const char* cls) {
+	std::vector<uint8_t> v = refgfx::encode_bmp(L);
+	BitmapFile b; Out o = guarded([&] { b = read_bmp(v); });
+	st.cls(std::string(cls) + (o == Out::Ok ? ":accepted" : ":refused"));
+	if (o == Out::Ok) accepted_laws(b, cls, st);
+	st.nt(fnv1a(v.data(), std::min<size_t>(v.size(), 64), v.size()) ^ 0xC4);
+}
+
+// widths whose row bit length reaches 2^32 (8 bpp: width >= 2^29, 4 bpp: width >= 2^30), carrying exactly the pixel bytes a row
+// length computed modulo 2^32 would ask for
+LBmp wrap32_bmp(unsigned depth, unsigned k, uint32_t w0, int32_t height) {
+	LBmp L; L.depth = depth; L.height = height;
+	L.width = int32_t((depth == 8 ? (uint32_t(1) << 29) : (uint32_t(1) << 30)) * k + w0);
+	for (size_t i = 0; i < (size_t(1) << depth); ++i) L.palette.push_back({uint8_t(i), uint8_t(i * 5), uint8_t(i * 3), 0});
+	L.pixels.assign(size_t(refgfx::pitch(w0, depth) * absh(height)), 0x5A);
+	return L;
+}
+
 void factory_case(unsigned depth, uint32_t width, int32_t height, unsigned mode, Tape& t, Stats& st) {
 	BitmapFile b;
 	size_t maxc = size_t(1) << depth;
@@ -119,6 +138,11 @@ void run_case(Tape& t, Stats& st) {
 		factory_case(depth, w, h, mode, t, st);
 		return;
 	}
+	if (t.below(16) == 0) {
+		unsigned depth = t.flag() ? 8 : 4; unsigned k = depth == 8 ? 1 + unsigned(t.below(3)) : 1;
+		candidate_case(wrap32_bmp(depth, k, uint32_t(t.below(40)), int32_t(t.below(9)) - 4), st, "wrap32");
+		return;
+	}
 	LBmp L = gen_lbmp(t);
 	if (st.want_sample()) st.sample("{\"file\":{\"depth\":" + std::to_string(L.depth) + ",\"width\":" + std::to_string(L.width) + ",\"height\":" + std::to_string(L.height) + ",\"used_colors\":" + std::to_string(L.usedColors) + ",\"shift\":" + std::to_string(L.shift) + "}}");
 	file_case(L, st);
@@ -138,6 +162,11 @@ void run_sweep(Stats& st) {
 			file_case(L, st);
 		}
 		for (unsigned mode = 0; mode < 3; ++mode) { Tape t(tp); factory_case(depth, uint32_t(width), height, mode, t, st); }
+	}
+	// row bit lengths that reach 2^32: pixel data sized for the row length modulo 2^32 must not be accepted as a consistent bitmap
+	for (unsigned depth : {4u, 8u}) for (unsigned k = 1; k <= (depth == 8 ? 3u : 1u); ++k) for (uint32_t w0 = 0; w0 <= 12; ++w0) for (int32_t height : {-2, -1, 0, 1, 2, 3}) {
+		if (!sw("wrap32", depth, k, w0, uint64_t(height + 8))) continue;
+		candidate_case(wrap32_bmp(depth, k, w0, height), st, "wrap32");
 	}
 	st.exhaustive = true;
 }
